@@ -289,6 +289,24 @@ class Compiler:
         if m: return (SETDISCR, s.place(m.group(1)), int(m.group(2)))
         # call?
         m = re.match(r'^(.+?) = (.+)\((.*)\) -> (?:\[return: (bb\d+)(?:, unwind[^\]]*)?\]|unwind[^;]*|(bb\d+));$', st, re.S)
+        if m and not balanced(m.group(2)):
+            # the greedy callee swallowed part of the argument list (`f(move _1, const ())`): re-split at the
+            # parenthesis that matches the closing one
+            m2 = re.match(r'^(.+?) = (.+)\) -> (?:\[return: (bb\d+)(?:, unwind[^\]]*)?\]|unwind[^;]*|(bb\d+));$', st, re.S)
+            if m2:
+                inner = m2.group(2); depth = 0; cut = None
+                for i in range(len(inner) - 1, -1, -1):
+                    ch = inner[i]
+                    if ch == ')': depth += 1
+                    elif ch == '(':
+                        if depth == 0: cut = i; break
+                        depth -= 1
+                if cut is not None and balanced(inner[:cut]):
+                    class _M:
+                        def __init__(s, g): s.g = g
+                        def group(s, i): return s.g[i - 1]
+                        def groups(s): return s.g
+                    m = _M((m2.group(1), inner[:cut], inner[cut + 1:], m2.group(3), m2.group(4)))
         if m and balanced(m.group(2)) and not m.group(2).startswith(('&', 'const ')) and not re.match(r'^\w+$', m.group(2)) or \
                 (m and re.match(r'^(copy|move) ', m.group(2))):
             dest, callee, args, ret, ret2 = m.groups()
@@ -1239,7 +1257,9 @@ class Exec:
 
     def call_value(s, f, argv):
         """call a closure / fn item value with already evaluated arguments (argv = positional args)"""
-        if isinstance(f, Ptr): f = s.load(f)
+        while isinstance(f, Ptr): f = s.load(f)
+        if isinstance(f, Agg) and not f.fields and not f.ty.startswith('{closure@') and s.prog.variants(f.ty) is not None:
+            return Agg(f.ty, f.variant, list(argv))      # a tuple-variant constructor used as a function (`.map(Cow::Borrowed)`)
         if isinstance(f, Agg) and f.ty.startswith('{closure@'):
             span = f.ty[9:-1]
             b = s.prog.closures.get(span)
